@@ -451,11 +451,9 @@ class World:
         cls = self.K[cname]
         angles = [0.05 * (self.next_tag + k) + 0.01 for k in range(n)]
         self.next_tag += n
-        try:
-            real = cls(angles) if via == 'ctor_angles' else getattr(cls, via)(angles)
-        except Exception as e:                                   # noqa: BLE001
-            self.fail('unexpected_exception', what='%s.%s(list of angles)' % (cname, via),
-                      observed=type(e).__name__, message=str(e)[:200])
+        _, real = self.run_call(
+            lambda: cls(angles) if via == 'ctor_angles' else getattr(cls, via)(angles),
+            'ok', '%s.%s(list of angles)' % (cname, via))
         if type(real) is not cls:
             self.fail('result_class', what=via, expected=cname, observed=type(real).__name__)
         data = getattr(real, 'data', None)
@@ -481,30 +479,34 @@ class World:
             return {'r': 'skip'}
         cls = self.K[x.cname]
         n = len(x.model)
+        signal.signal(signal.SIGALRM, _on_alarm)
+        signal.setitimer(signal.ITIMER_REAL, CALL_GUARD_S, 2.0)
         try:
-            if how == 'inv' and hasattr(cls, 'inv') and n >= 1:
-                real = x.real.inv()
-            elif how == 'mul_self' and x.cname in ('SO2', 'SE2', 'SO3', 'SE3', 'Quaternion',
-                                                   'UnitQuaternion') and n >= 1:
-                real = x.real * x.real
-            elif how == 'rand' and hasattr(cls, 'Rand') and x.cname != 'Twist3':
-                np.random.seed(int(rec.get('npseed', 0)) & 0x7FFFFFFF)
-                n = max(1, int(rec.get('n', 2)))
-                real = cls.Rand(N=n)
-            else:
-                return {'r': 'skip'}
-        except Exception as e:                                   # noqa: BLE001
+            try:
+                if how == 'inv' and hasattr(cls, 'inv') and n >= 1:
+                    real = x.real.inv()
+                elif how == 'mul_self' and x.cname in ('SO2', 'SE2', 'SO3', 'SE3', 'Quaternion',
+                                                       'UnitQuaternion') and n >= 1:
+                    real = x.real * x.real
+                elif how == 'rand' and hasattr(cls, 'Rand') and x.cname != 'Twist3':
+                    np.random.seed(int(rec.get('npseed', 0)) & 0x7FFFFFFF)
+                    n = max(1, int(rec.get('n', 2)))
+                    real = cls.Rand(N=n)
+                else:
+                    return {'r': 'skip'}
+                data = getattr(real, 'data', None)
+                if isinstance(data, list):
+                    for a in data[:MAX_LEN]:    # arithmetic results are not validated by the library;
+                        cls(a)                  # indexing re-validates: only survivors are list subjects
+            finally:
+                signal.setitimer(signal.ITIMER_REAL, 0)
+        except (Exception, CallTimeout) as e:                    # noqa: BLE001
             return {'r': 'raise:' + type(e).__name__}       # arithmetic is not C10's business
         data = getattr(real, 'data', None)
         shape = identity_value(x.cname).shape
         if type(real) is not cls or not isinstance(data, list) or len(data) != n or \
                 any(not isinstance(a, np.ndarray) or a.shape != shape for a in data):
             return {'r': 'skip'}                             # not a well-formed object: not reused
-        try:
-            for a in data:          # arithmetic results are not validated by the library; indexing
-                cls(a)              # re-validates.  Only members that survive that are list subjects
-        except Exception:                                        # noqa: BLE001
-            return {'r': 'skip'}
         elems = [Elem(self.next_tag + k, np.array(a, dtype=float)) for k, a in enumerate(data)]
         self.next_tag += n
         self.objs.append(Obj(x.cname, real, elems))
